@@ -9,6 +9,7 @@
 //          residual is not improved by any of a finite set of small perturbations of the rotation (and of the scale)
 // Bounds calibrated on the clean tree at seeds 1-3 (see tools/props/c12.py).   c12_residue <seed> <n>
 #include <ImathMatrixAlgo.cpp>
+#include "c12_structured.h"
 #include <cstdio>
 #include <random>
 #include <string>
@@ -126,10 +127,15 @@ template <int n, class M> static LD detLD (const M& A)
 
 static const double CSVD = 64, CEIG = 64;
 
+template <int n, class T> static void svdRun (const typename MT<n>::template M<T>& A, const std::string& name);
 template <int n, class T> static void svdCase (int cls)
 {
+    std::string name; typename MT<n>::template M<T> A = genMatrix<n, T> (cls, name);
+    svdRun<n, T> (A, name);
+}
+template <int n, class T> static void svdRun (const typename MT<n>::template M<T>& A, const std::string& name)
+{
     typedef typename MT<n>::template M<T> M; typedef typename MT<n>::template V<T> V;
-    std::string name; M A = genMatrix<n, T> (cls, name);
     const LD eps = std::numeric_limits<T>::epsilon ();
     for (int force = 0; force < 2; ++force)
     {
@@ -161,11 +167,16 @@ template <int n, class T> static void svdCase (int cls)
     }
 }
 
+template <int n, class T> static void eigRun (typename MT<n>::template M<T> A, const std::string& name);
 template <int n, class T> static void eigCase (int cls)
 {
-    typedef typename MT<n>::template M<T> M; typedef typename MT<n>::template V<T> V;
-    std::string name; M A = genMatrix<n, T> (cls == 4 ? 5 : cls, name);
+    std::string name; typename MT<n>::template M<T> A = genMatrix<n, T> (cls == 4 ? 5 : cls, name);
     for (int i = 0; i < n; ++i) for (int j = 0; j < i; ++j) A[i][j] = A[j][i];
+    eigRun<n, T> (A, name);
+}
+template <int n, class T> static void eigRun (typename MT<n>::template M<T> A, const std::string& name)
+{
+    typedef typename MT<n>::template M<T> M; typedef typename MT<n>::template V<T> V;
     const LD eps = std::numeric_limits<T>::epsilon ();
     M A0 = A, Vm; V S;
     jacobiEigenSolver (A, S, Vm, std::numeric_limits<T>::epsilon ());
@@ -321,11 +332,25 @@ template <class T> static void procrustesCase (int shape, bool weighted, bool do
     }
 }
 
+// deterministic structured sparse matrices (c12_structured.h): every tier, float and double, force on/off (inside svdRun)
+template <int n, class T> static void structuredCases ()
+{
+    typedef typename MT<n>::template M<T> M;
+    for (auto& nm : c12Structured<M, T, n> (false)) svdRun<n, T> (nm.second, "structured:" + nm.first.substr (0, nm.first.find (':')));
+    for (auto& nm : c12Structured<M, T, n> (true))
+    {
+        std::string cls = "structured-sym:" + nm.first.substr (0, nm.first.find (':'));
+        eigRun<n, T> (nm.second, cls);
+        svdRun<n, T> (nm.second, cls);
+    }
+}
+
 int main (int argc, char** argv)
 {
     unsigned long seed = argc > 1 ? strtoul (argv[1], 0, 10) : 1;
     int n = argc > 2 ? atoi (argv[2]) : 200;
     g.seed (seed * 6364136223846793005ul + 1442695040888963407ul);
+    structuredCases<3, double> (); structuredCases<4, double> (); structuredCases<3, float> (); structuredCases<4, float> ();
     for (int i = 0; i < n; ++i)
     {
         int cls = i % 8;
